@@ -18,7 +18,7 @@ from concurrent.futures import ThreadPoolExecutor
 from . import common as C
 
 PID = "C16"
-PARAM_SECTIONS = ["c16"]
+PARAM_SECTIONS = ["c16", "wal", "table"]
 MODEL_TARGETS = ["theories/Codec/Regions.vo"]
 TRUSTED = [
     "E6 (tools/vlib/c16.py + harness/src/dmg.rs): copies of closed database directories on /dev/shm, byte alterations applied by the harness, "
